@@ -210,9 +210,20 @@ def check_diagnostics(ctx, impl, cnt, text, filename, lineno, recs):
                                    % (r['text'], ln, src), {'kind': 'text', 'text': text, 'lineno': lineno, 'diagnostic': r})
 
 
+def identifier_pending(impl, lines, i):
+    """no identifier has been accepted on the lines before source line `i`: then the tokenizer call that
+    rejected line `i` was the one for the identifier's annotation field (the only one made while there is no
+    block yet).  Decided by the real parser on the block cut off before that line."""
+    if i <= 1:
+        return True
+    b, _i, _r, exc = ac.parse_real(impl, '\n'.join(lines[:i] + [' */']))
+    return exc is None and b is None
+
+
 def neutralised(impl, text, lineno, diag_line):
     """the same block with the annotation field of source line `diag_line` taken out: on a
-    part's first line the field is cut off, on a continuation line parentheses become text"""
+    part's first line (the identifier line, wherever it stands, a parameter or a tag line) the field is
+    cut off, on a continuation line parentheses become text"""
     eolm = LINE_BREAK.search(text)
     eol = eolm.group(0) if eolm else '\n'
     lines = source_lines(text)
@@ -230,7 +241,7 @@ def neutralised(impl, text, lineno, diag_line):
         if mm:
             cut = mm.start('fields')
             break
-    if cut is None and i == 1:
+    if cut is None and identifier_pending(impl, lines, i):
         for name in ('PROPERTY_RE', 'SIGNAL_RE', 'FIELD_RE', 'SYMBOL_RE'):
             mm = getattr(ap, name).match(rest)
             if mm:
